@@ -119,7 +119,7 @@ func (t SSE) Do(w http.ResponseWriter, r *http.Request, exec graphql.GraphExecut
 	} else {
 		responses, ctx := exec.DispatchOperation(ctx, rc)
 		for {
-			response := responses(ctx)
+			response := nextResponse(ctx, exec, rc, responses)
 			if response == nil {
 				break
 			}
